@@ -1,5 +1,5 @@
 (* Props/C03.v -- property theorems for C03 only. *)
-From LV Require Import Base FS FSFacts LayerEnv LayerEnvFacts LayerShared LayerSharedGone LayerEnvFS LayerEnvFSFacts Determinism LayerEnvFSExact.
+From LV Require Import Base FS FSFacts LayerEnv LayerEnvFacts LayerShared LayerSharedGone LayerEnvFS LayerEnvFSFacts Determinism LayerEnvFSExact FSInv LayerEnvFSCompose.
 From LVGen Require Import GenLayerEnv.
 
 Theorem c03_tables :
@@ -81,10 +81,32 @@ Theorem c03_env_dir_overwrites :
 Proof. exact (write_env_dir_overwrites beh_order writer_suffix). Qed.
 Print Assumptions c03_env_dir_overwrites.
 
-(* PARTIAL: the composition over the three directories and the per-process directories below
-   env.launch (which needs create_dir_all's recursion when env.launch itself is absent) is decided on
-   implementation snapshots by the verified judgement layout_exact / frame_chk of Checks/C03Hold.v
-   and by the correspondence, not yet proved as one theorem about write_to_layer_dir. *)
+(* the whole of LayerEnv::write_to_layer_dir for environments without per-process entries: from any
+   state satisfying the representation invariants in which each env root is absent or a tree
+   remove_dir_all can traverse, the call succeeds, keeps the invariants, and EVERY path of the file
+   system is determined: below env / env.build / env.launch exactly the CNB layout of the
+   respective delta (nothing for an empty delta -- stale directories of emptied scopes vanish),
+   everything else unchanged.  The result does not mention the old contents of the three roots:
+   that is the overwrite property. *)
+Theorem c03_write_to_layer_dir_exact :
+  forall e dir s,
+    fs_inv s dir -> process_free e ->
+    files_ok beh_order writer_suffix (le_all e) -> files_ok beh_order writer_suffix (le_build e) ->
+    files_ok beh_order writer_suffix (le_launch e) ->
+    root_ok s (dir ++ [n_env]) -> root_ok s (dir ++ [n_env_build]) -> root_ok s (dir ++ [n_env_launch]) ->
+    exists s', write_to_layer_dir beh_order writer_suffix e dir s = (s', Ok tt) /\ fs_inv s' dir /\
+      forall q,
+        pget q s' =
+        if is_prefix (dir ++ [n_env]) q then env_dir_spec beh_order writer_suffix (le_all e) (dir ++ [n_env]) q
+        else if is_prefix (dir ++ [n_env_build]) q then env_dir_spec beh_order writer_suffix (le_build e) (dir ++ [n_env_build]) q
+        else if is_prefix (dir ++ [n_env_launch]) q then env_dir_spec beh_order writer_suffix (le_launch e) (dir ++ [n_env_launch]) q
+        else pget q s.
+Proof. exact (write_to_layer_dir_exact beh_order writer_suffix). Qed.
+Print Assumptions c03_write_to_layer_dir_exact.
+
+(* PARTIAL: per-process directories below env.launch (create_dir_all's recursion when env.launch
+   itself is absent) are decided on implementation snapshots by the verified judgement
+   layout_exact / frame_chk of Checks/C03Hold.v and by the correspondence. *)
 
 Example c03_nonvacuous :
   let d := dinsert Append [65; 46; 66] [1] (dinsert Override [255] [0; 10] (dinsert Delim [65; 46; 66] [58] delta_empty)) in
